@@ -43,14 +43,14 @@ RULE_LIB = ('histories generated from one seeded PRNG state (boundary-first ages
             'its resolved operation list and non-trivial when at least one compared fetch returns a series with a non-NaN value')
 
 PROPS = {
-    'C01': entry(gens_core.gen_c01, 400, 6000, RULE_LIB,
+    'C01': entry(gens_core.GENS['C01'], 400, 6000, RULE_LIB,
                  'whisper.go ring read/write path (pointIndex, putPointAt, fetchRawPoints, clearOldPoints, FetchFromArchive), '
                  'hnakamur/filebuffer as identity on the slot view'),
-    'C02': entry(gens_core.gen_c02, 400, 6000, RULE_LIB,
+    'C02': entry(gens_core.GENS['C02'], 400, 6000, RULE_LIB,
                  'propagateChain/propagate/filterValidValues/aggregate; float arithmetic abstract in the theorems, Flocq in the runs'),
-    'C03': entry(gens_core.gen_c03, 400, 6000, RULE_LIB,
+    'C03': entry(gens_core.GENS['C03'], 400, 6000, RULE_LIB,
                  'UpdatePointForArchive, UpdatePointsForArchive, sort.Stable (modelled as stable insertion sort), extractPoints, alignPoints'),
-    'C04': entry(gens_core.gen_c04, 800, 12000,
+    'C04': entry(gens_core.GENS['C04'], 800, 12000,
                  RULE_LIB.replace('non-trivial when at least one compared fetch returns a series with a non-NaN value',
                                   'non-trivial when at least one fetch returns a series (shape observed)'),
                  'FetchFromArchive clamping, interval arithmetic, findBestArchive'),
